@@ -53,11 +53,44 @@ fn patch(w: &mut [u8], pos: u16, rec: writer::Reserved, t: u16) -> bool {
 	}
 }
 
+#[inline(always)]
+fn goto_body(resolved: bool) {
+	let pos = sym::u16();
+	let t = sym::u16();
+	let make_wide = sym::bool();
+	let jsr = sym::bool();
+	let (op, wide_op) = if jsr { (JSR, JSR_W) } else { (GOTO, GOTO_W) };
+	let label = hook::label_from_id(sym::u16());
+	let mut w = Vec::with_capacity(8);
+	let r = writer::goto_helper(&mut w, if resolved { Some(t) } else { None }, make_wide, pos, IDX, &label, op, wide_op);
+	let rec = r.expect("goto can always be written");
+	let off = t as i32 - pos as i32;
+	if resolved {
+		assert!(rec.is_none());
+		assert!(decode_goto(&w, pos, op, wide_op) == Some(t as i64), "emitted bytes do not jump to the target");
+		assert!((w.len() == 3) == (off >= -32768 && off <= 32767));
+	} else {
+		let rec = rec.expect("an unresolved label must reserve a slot");
+		assert!(rec.2 == make_wide);
+		let fits = patch(&mut w, pos, rec, t);
+		if fits {
+			assert!(decode_goto(&w, pos, op, wide_op) == Some(t as i64), "patched bytes do not jump to the target");
+		} else {
+			assert!(!make_wide && (off < -32768 || off > 32767));
+		}
+	}
+	witness!(!resolved || off == -32769, "backward goto_w");
+	witness!(resolved || (make_wide && jsr), "reserved jsr_w");
+	core::mem::forget(w);
+}
+
+
 const IDX: usize = 7;
 
 //# {"id":"c02_if_helper_resolved","props":["C02"],"tier":"quick","cap":600,"z":["stubbing"],"bound":"all opcode_pos <= 65532 and target in u16, any opcode pair, label already resolved, instruction marked wide or not; one HashMap entry, one HashSet entry (instruction index 7); no loops beyond hashbrown probing (unwind 8)","fns":["duke::simple_class_writer::if_helper","compute_signed_offset","labels::Labels::{new,add_opcode_pos_label,get}"],"stubs":["std::hash::RandomState::new -> constant keys","<DefaultHasher as Hasher>::write -> no-op","<DefaultHasher as Hasher>::finish -> 0"]}
 //# {"id":"c02_if_helper_unresolved","props":["C02"],"tier":"quick","cap":600,"z":["stubbing"],"bound":"all opcode_pos <= 65532, all later targets t in u16, any opcode pair, label unresolved, narrow and wide reservation; unwind 8","fns":["if_helper","compute_signed_offset"],"stubs":["RandomState::new","DefaultHasher::{write,finish}"]}
-//# {"id":"c02_goto_helper","props":["C02"],"tier":"quick","cap":600,"z":["stubbing"],"bound":"all opcode_pos and targets in u16, goto/goto_w and jsr/jsr_w, resolved / unresolved narrow / unresolved wide; unwind 8","fns":["goto_helper","compute_signed_offset"],"stubs":["RandomState::new","DefaultHasher::{write,finish}"]}
+//# {"id":"c02_goto_helper_resolved","props":["C02"],"tier":"quick","cap":900,"z":["stubbing"],"bound":"all opcode_pos and targets in u16, goto/goto_w and jsr/jsr_w, label resolved; unwind 8","fns":["goto_helper","compute_signed_offset"],"stubs":["RandomState::new","DefaultHasher::{write,finish}"]}
+//# {"id":"c02_goto_helper_unresolved","props":["C02"],"tier":"quick","cap":900,"z":["stubbing"],"bound":"all opcode_pos and later targets in u16, goto/goto_w and jsr/jsr_w, label unresolved, narrow and wide reservation; unwind 8","fns":["goto_helper","compute_signed_offset"],"stubs":["RandomState::new","DefaultHasher::{write,finish}"]}
 //# {"id":"c02_switch_helper","props":["C02"],"tier":"quick","cap":600,"z":["stubbing"],"bound":"all opcode_pos and targets in u16, 0..=3 bytes already in the buffer, resolved / unresolved; alignment padding for every len mod 4; unwind 5","fns":["switch_helper","simple_class_writer::align_to_4_byte_boundary","compute_signed_offset"],"stubs":["RandomState::new","DefaultHasher::{write,finish}"]}
 //# {"id":"c02_if_helper_pos_overflow","props":["C02","C16"],"tier":"quick","cap":600,"z":["stubbing"],"bound":"opcode_pos in 65533..=65535 (an instruction that starts in the last three bytes of an over-long method), any target, resolved or wide-unresolved; unwind 8","fns":["if_helper"],"stubs":["RandomState::new","DefaultHasher::{write,finish}"]}
 proofs! {
@@ -123,36 +156,12 @@ proofs! {
 	#[cfg_attr(kani, kani::stub(std::hash::RandomState::new, crate::hstubs::random_state_new))]
 	#[cfg_attr(kani, kani::stub(<std::hash::DefaultHasher as std::hash::Hasher>::write, crate::hstubs::hasher_write))]
 	#[cfg_attr(kani, kani::stub(<std::hash::DefaultHasher as std::hash::Hasher>::finish, crate::hstubs::hasher_finish))]
-	fn c02_goto_helper() {
-		let pos = sym::u16();
-		let t = sym::u16();
-		let resolved = sym::bool();
-		let make_wide = sym::bool();
-		let jsr = sym::bool();
-		let (op, wide_op) = if jsr { (JSR, JSR_W) } else { (GOTO, GOTO_W) };
-		let label = hook::label_from_id(sym::u16());
-		let mut w = Vec::with_capacity(8);
-		let r = writer::goto_helper(&mut w, if resolved { Some(t) } else { None }, make_wide, pos, IDX, &label, op, wide_op);
-		let rec = r.expect("goto can always be written");
-		let off = t as i32 - pos as i32;
-		if resolved {
-			assert!(rec.is_none());
-			assert!(decode_goto(&w, pos, op, wide_op) == Some(t as i64), "emitted bytes do not jump to the target");
-			assert!((w.len() == 3) == (off >= -32768 && off <= 32767));
-		} else {
-			let rec = rec.expect("an unresolved label must reserve a slot");
-			assert!(rec.2 == make_wide);
-			let fits = patch(&mut w, pos, rec, t);
-			if fits {
-				assert!(decode_goto(&w, pos, op, wide_op) == Some(t as i64), "patched bytes do not jump to the target");
-			} else {
-				assert!(!make_wide && (off < -32768 || off > 32767));
-			}
-		}
-		witness!(resolved && off == -32769, "backward goto_w");
-		witness!(!resolved && make_wide && jsr, "reserved jsr_w");
-		core::mem::forget(w);
-	}
+	fn c02_goto_helper_resolved() { goto_body(true); }
+	#[cfg_attr(kani, kani::unwind(8))]
+	#[cfg_attr(kani, kani::stub(std::hash::RandomState::new, crate::hstubs::random_state_new))]
+	#[cfg_attr(kani, kani::stub(<std::hash::DefaultHasher as std::hash::Hasher>::write, crate::hstubs::hasher_write))]
+	#[cfg_attr(kani, kani::stub(<std::hash::DefaultHasher as std::hash::Hasher>::finish, crate::hstubs::hasher_finish))]
+	fn c02_goto_helper_unresolved() { goto_body(false); }
 
 	#[cfg_attr(kani, kani::unwind(5))]
 	#[cfg_attr(kani, kani::stub(std::hash::RandomState::new, crate::hstubs::random_state_new))]
